@@ -178,9 +178,11 @@ def check(prop, tier, seed):
             verdict, path, payload = dict(fails=None, detail='no replay input for this obligation'), None, None
             for model, note in tries:
                 call = None
-                if mk is not None and model:
+                # meta replay_without_model: the obligation's replay is a fixed native battery of its clause and needs no model values
+                # (counterexamples over uninterpreted operations, or a sat verdict from a back end that returns no witness values)
+                if mk is not None and (model or r.ob.meta.get('replay_without_model')):
                     try:
-                        call = mk(model)
+                        call = mk(model or {})
                     except Exception as e:          # noqa
                         call = None
                 payload = dict(property=prop, obligation=r.name, kind=r.ob.kind, model=model, call=call,
